@@ -20,7 +20,7 @@ const c09Yang = `module m { namespace "urn:m"; prefix m; revision 2020-01-01;
 		}
 		choice ch2 {
 			case x { leaf x1 { type string; } }
-			case y { choice inner { case i1 { leaf i1l { type string; } } case i2 { leaf i2l { type string; } } } }
+			case y { choice inner { case i1 { leaf i1l { type string; } } case i2 { leaf i2l { type string; } } } leaf ytail { type string; } container ybox { leaf yb { type string; } } }
 		}
 		leaf tail { type string; }
 	}
@@ -63,6 +63,10 @@ func c09Step(st *memStore, opt int) {
 		c.leaves["i2l"] = val.String("z")
 	case 9: // data outside any choice only
 		c.leaves["tail"] = s
+	case 10: // a case whose nested choice is followed by more nodes
+		c.leaves["i1l"] = s
+		c.leaves["ytail"] = val.String("yt")
+		c.ensureKid(st, "ybox").leaves["yb"] = val.String("yb")
 	}
 }
 
@@ -174,7 +178,7 @@ func H_C09_choice_sequence(s any) {
 	for i := 0; i < c09Steps(); i++ {
 		src := newMemStore()
 		src.quiet = true
-		c09Step(src, vpChoose(10))
+		c09Step(src, vpChoose(11))
 		err := b.Root().UpsertFrom(src.node())
 		vpAssert(err == nil, "upsert succeeds")
 		refChoices(cMeta, src.root.kids["c"], ref.root.kids["c"])
@@ -188,6 +192,41 @@ func H_C09_choice_sequence(s any) {
 	out.quiet = true
 	vpAssert(b.Root().UpsertInto(out.node()) == nil, "export succeeds")
 	vpAssertK("C09-nested-choice-not-cleared", true, treeEq(out.root, dst.root), "a read reports the nodes of the selected cases only")
+	vpCover("reached")
+}
+
+// one upsert switches the case in two entries of the same list
+//vp:setup S_c09
+func H_C09_choice_two_entries(s any) {
+	m := s.(*meta.Module)
+	dst := newMemStore()
+	dst.quiet = true
+	b := NewBrowser(m, dst.node())
+	keys := []val.Value{val.String("r1"), val.String("r2"), val.String("r3")}
+	first := [3]bool{vpBool(), vpBool(), vpBool()}
+	second := [3]bool{vpBool(), vpBool(), vpBool()}
+	for step, sel := range [][3]bool{first, second} {
+		src := newMemStore()
+		src.quiet = true
+		l := src.root.ensureList(src, "l")
+		for i, k := range keys {
+			row := l.addRow(src, k)
+			row.leaves["k"] = k
+			if sel[i] {
+				row.leaves["p1"] = val.String("p")
+			} else {
+				row.leaves["q1"] = val.String("q")
+			}
+		}
+		vpAssert(b.Root().UpsertFrom(src.node()) == nil, "upsert succeeds")
+		for i, k := range keys {
+			got := dst.root.lists["l"].find(k)
+			vpAssert(got != nil, "row exists")
+			_, hasP := got.leaves["p1"]
+			_, hasQ := got.leaves["q1"]
+			vpAssert(hasP == sel[i] && hasQ == !sel[i], "every entry holds exactly the case written last (step "+string(rune('0'+step))+")")
+		}
+	}
 	vpCover("reached")
 }
 
